@@ -180,7 +180,10 @@ func (b *Buffer) checkCommit(dig ociregistry.Digest) (_ ociregistry.Descriptor, 
 		return ociregistry.Descriptor{}, b.commitErr
 	}
 	defer func() {
-		if err != nil {
+		if err != nil && !b.committed {
+			// Note: a failed attempt must not invalidate content
+			// that has already been checked and is being (or has
+			// been) committed by another call.
 			b.commitErr = err
 		}
 	}()
